@@ -180,6 +180,26 @@ def gen_partial_request(rng: random.Random) -> Dict[str, Any]:
             "links": [{"jt": "INNER", "l": "R0", "r": "R1", "li": ["k"], "ri": ["k"]}]}
 
 
+def gen_shared_upload(rng: random.Random) -> Dict[str, Any]:
+    """ONE uploaded table with several readers in other worker processes, one of them late: a PyArrow source RA is (a) the input of
+    1-2 consumers on other frameworks (transform steps download its table) and (b) the RIGHT side of an inner join with a SLOW
+    source RL (the join step downloads RA's table only after RL has finished, long after the transform steps ran).  Whoever
+    releases RA's dataset when the first reader is done takes it away from the late one."""
+    n = 3
+    groups: List[Dict[str, Any]] = [
+        {"name": "RA", "kind": "root", "cfw": "PyArrowTable", "cols": {"a": [rng.randrange(0, 9) for _ in range(n)], "k": [1, 2, 3]}},
+        {"name": "RL", "kind": "root", "cfw": "PyArrowTable", "cols": {"l": [rng.randrange(0, 9) for _ in range(n)], "k": [1, 2, 3]},
+         "delay_ms": rng.choice([600, 1200])},
+        {"name": "J", "kind": "derived", "cfw": "PyArrowTable", "features": {"j": {"inputs": ["l", "a"], "c0": 0, "coefs": [1, 10]}}}]
+    req = ["j"]
+    for i, cf in enumerate(rng.sample(["PandasDataFrame", "PythonDictFramework"], rng.randrange(1, 3))):
+        groups.append({"name": f"B{i}", "kind": "derived", "cfw": cf, "features": {f"b{i}": {"inputs": ["a"], "c0": i, "coefs": [2]}}})
+        req.insert(i, f"b{i}")
+    # request order [b.., j]: with j first the transform steps are planned behind the join and read the object the join
+    # redirected them to (SYNC raises on the unchanged tree - C01's round-trip / wrong-object domain)
+    return {"groups": groups, "request": req, "links": [{"jt": "INNER", "l": "RL", "r": "RA", "li": ["k"], "ri": ["k"]}], "family": "shared_upload"}
+
+
 def gen_option_groups(rng: random.Random) -> Dict[str, Any]:
     """A root whose data depends on a group option (two option values), consumer groups on the same or another framework,
     each requested for ONE option value: the producer is computed once per option group."""
